@@ -228,7 +228,12 @@ class TocFetcher:
         """The cache is keyed on the CRC only: make sure that what was found is
         a table of the kind (log or param) and size that is being fetched"""
         nbr_of_items = 0
+        if not isinstance(cache_data, dict):
+            # Parsable, but not a table (e.g. the remains of a damaged file)
+            return False
         for group in cache_data.values():
+            if not isinstance(group, dict):
+                return False
             for element in group.values():
                 if not isinstance(element, self.element_class):
                     return False
